@@ -46,6 +46,7 @@ int tls13_record_decrypt(const BLOCK_CIPHER_KEY *key, const uint8_t iv[12], cons
 #endif
 
 static FILE *devnull;
+static uint8_t *rcpt; static size_t rcpt_len;           /* certificate of the fixed key (VF_RCPT file, DER) */
 static uint8_t *anchor; static size_t anchor_len;     /* trust anchor for chain verification (VF_ANCHOR file) */
 static SM2_KEY fixed_key; static int have_key;
 static SM9_SIGN_MASTER_KEY sm9_smk; static SM9_ENC_MASTER_KEY sm9_emk; static SM9_ENC_KEY sm9_ek; static SM9_EXCH_KEY sm9_xk; static int have_sm9;
@@ -64,6 +65,8 @@ static void init_once(void)
 	devnull = fopen("/dev/null", "w");
 	const char *a = getenv("VF_ANCHOR");
 	if (a) x509_certs_new_from_file(&anchor, &anchor_len, a);
+	{ const char *r = getenv("VF_RCPT"); FILE *f = r ? fopen(r, "rb") : NULL;
+	  if (f) { rcpt = malloc(4096); rcpt_len = fread(rcpt, 1, 4096, f); fclose(f); if (!rcpt_len) { free(rcpt); rcpt = NULL; } } }
 	{
 		/* fixed private key (the standard's example key) for decrypt / deenvelop attempts */
 		static const uint8_t d[32] = { 0x39,0x45,0x20,0x8F,0x7B,0x21,0x44,0xB1,0x3F,0x36,0xE3,0x8A,0xC6,0xD3,0x9F,0x95,
@@ -204,6 +207,12 @@ static void target(const uint8_t *in, size_t len)
 		if (have_key && anchor) {
 			const uint8_t *ri, *sci1, *sci2; size_t ril, sci1l, sci2l;
 			cms_deenvelop(in, len, &fixed_key, anchor, anchor_len, &ctype, out, &outlen, &ri, &ril, &sci1, &sci1l, &sci2, &sci2l);
+		}
+		if (have_key && rcpt) {
+			const uint8_t *ri, *s1, *s2, *si, *sc, *scrl; size_t ril, s1l, s2l, sil, scl, scrll;
+			cms_deenvelop(in, len, &fixed_key, rcpt, rcpt_len, &ctype, out, &outlen, &ri, &ril, &s1, &s1l, &s2, &s2l);
+			cms_deenvelop_and_verify(in, len, &fixed_key, rcpt, rcpt_len, anchor, anchor_len, NULL, 0, &ctype, out, &outlen,
+				&ri, &ril, &si, &sil, &sc, &scl, &scrl, &scrll, &s1, &s1l, &s2, &s2l);
 		}
 		free(out);
 	}
@@ -384,17 +393,25 @@ int LLVMFuzzerTestOneInput(const uint8_t *data, size_t size)
 /* corpus replay driver (MemorySanitizer build): runs every file named on the command line / in the listed directories */
 #include <dirent.h>
 #include <sys/stat.h>
+#include <signal.h>
+#include <unistd.h>
 static long runs;
+static const char *current_file;
+static void on_alarm(int sig) { (void)sig; if (current_file) { (void)!write(1, "HANG ", 5); (void)!write(1, current_file, strlen(current_file)); (void)!write(1, "\n", 1); } _exit(88); }
 static void run_file(const char *path)
 {
+	current_file = path;
+	{ const char *t = getenv("VF_FILE_TIMEOUT"); alarm(t ? (unsigned)atoi(t) : 60); }
 	FILE *f = fopen(path, "rb"); if (!f) return;
 	uint8_t *buf = malloc(1 << 17); size_t n = fread(buf, 1, 1 << 17, f); fclose(f);
 	uint8_t *exact = malloc(n ? n : 1); memcpy(exact, buf, n); free(buf);
 	LLVMFuzzerTestOneInput(exact, n); free(exact); runs++;
+	alarm(0);
 }
 int main(int argc, char **argv)
 {
 	if (!freopen("/dev/null", "w", stderr)) return 2;
+	signal(SIGALRM, on_alarm);
 	for (int i = 1; i < argc; i++) {
 		struct stat st; if (stat(argv[i], &st)) continue;
 		if (S_ISDIR(st.st_mode)) {
